@@ -129,7 +129,7 @@ func runC16(c *Ctx) {
 				}
 				var origins []origin
 				osl := flow.NewSlicer(c.P)
-				osl.LiftParams = 0
+				osl.LiftParams = 3 // the name may reach the fetch through a helper's parameter
 				seen := map[ssa.Value]bool{}
 				osl.Visit(na, func(v ssa.Value) bool {
 					if call, ok := isNameCall(v); ok {
@@ -183,8 +183,15 @@ func runC16(c *Ctx) {
 			bQuoteFound
 		)
 		nGet, nLocal := 0, 0
+		// Endorsement and the unexported helpers it may be split into (the evidence lookups themselves
+		// are events, not part of the region)
+		endRegion := map[*ssa.Function]bool{}
+		for _, g := range unexportedRegion(end) {
+			endRegion[g] = true
+		}
+		sl := flow.NewSlicer(c.P)
+		sl.LiftParams = 3
 		r := &esp.Rule{Name: "C16.R3"}
-		r.Relevant = func(*ssa.Function) bool { return false }
 		r.Flag = func(v ssa.Value) (int, bool) {
 			if u, ok := v.(*ssa.UnOp); ok && u.Op == token.MUL && flow.IsFieldLoad(v, extractPkg, "Options", "ForceFetch") {
 				return 0, true
@@ -196,6 +203,9 @@ func runC16(c *Ctx) {
 			if f == nil || load.RelPkg(f) != "extract" || f.Signature.Recv() == nil || errIndex(f.Signature) < 0 {
 				return "", false
 			}
+			if len(callsIn(f, isGetterGet)) > 0 {
+				return "", false // a helper that performs the network fetch itself is not a local lookup
+			}
 			res := f.Signature.Results()
 			if res.At(0).Type().String() != "[]byte" {
 				return "", false
@@ -205,9 +215,28 @@ func runC16(c *Ctx) {
 			}
 			return "quote", true
 		}
+		r.Relevant = func(f *ssa.Function) bool {
+			if !endRegion[f] || f == end {
+				return false
+			}
+			// lookups are events
+			res := f.Signature.Results()
+			if f.Signature.Recv() != nil && errIndex(f.Signature) >= 0 && res.Len() >= 2 && res.At(0).Type().String() == "[]byte" && len(callsIn(f, isGetterGet)) == 0 {
+				// a helper that only wraps a lookup (calls one) is part of the region; a lookup proper is not
+				for _, call := range callsIn(f, func(call ssa.CallInstruction) bool { _, ok := isLocal(call); return ok }) {
+					_ = call
+					return true
+				}
+				return false
+			}
+			return true
+		}
 		r.Match = func(in ssa.Instruction) []esp.Ev {
 			switch v := in.(type) {
 			case *ssa.Call:
+				if g := v.Call.StaticCallee(); g != nil && r.Relevant(g) {
+					return nil // summarised helper, not an event
+				}
 				if isGetterGet(v) {
 					nGet++
 					return []esp.Ev{{ID: 2, Name: "network Get", ErrIdx: -1, BoolIdx: -1}}
